@@ -6,7 +6,7 @@ An instant is an integer of nanoseconds since the Unix epoch. The civil date is 
 proof-friendly algorithm (year by a downward search from an over-estimate, month from the cumulative
 table); that it prints what Go's `time` package prints is checked byte for byte by the correspondence
 run (cmd/c26, field `fmt`), not proved.  The parser accepts exactly
-  YYYY-MM-DD 'T' HH:MM:SS [ '.' digits ] ( 'Z' | ('+'|'-') HH ':' MM )
+  YYYY-MM-DD 'T' HH:MM:SS [ ('.'|',') digits ] ( 'Z' | ('+'|'-') HH ':' MM )
 with Go's range checks (month, day of month incl. leap years, hour, minute, second < 60) and year ≥ 1.
 Core-only (no Mathlib): imported by the line-protocol driver.
 -/
@@ -97,6 +97,9 @@ def fracValue : Nat → Bytes → Nat
 def parseFrac (rest : Bytes) : Option (Nat × Bytes) :=
   match rest with
   | 46 :: r =>
+    let p := spanDigits r
+    if p.1.isEmpty then none else some (fracValue 9 p.1, p.2)
+  | 44 :: r =>   -- Go's parser also accepts a comma as the decimal separator
     let p := spanDigits r
     if p.1.isEmpty then none else some (fracValue 9 p.1, p.2)
   | _ => some (0, rest)
